@@ -137,13 +137,22 @@ def transformers(I, rng):
     for merge in (False, True):
         out.append(("openrange:merge=%s" % merge, lambda t, merge=merge: U.OpenRangeTransformer(merge_ranges=merge)(t)))
     out.append(("auto_head_tail", lambda t: I.aht.auto_head_tail(t)))
+    # shipped transformers applied one after the other (the resolver's / the range transformer's output handed to
+    # auto_head_tail, which is what repairs missing blanks: seeded C11-H: blanks added to hand-built items only)
+    for name, cls in (("and", T.AndOperation), ("or", T.OrOperation)):
+        out.append(("resolve:%s:''+auto_head_tail" % name,
+                    lambda t, cls=cls: I.aht.auto_head_tail(U.UnknownOperationResolver(cls, add_head="")(t))))
+    out.append(("openrange:merge=True+auto_head_tail",
+                lambda t: I.aht.auto_head_tail(U.OpenRangeTransformer(merge_ranges=True, add_head="")(t))))
     return out
 
 
 # witnesses of the known findings and shapes that past seeded changes needed (run first, with every transformer)
 CORPUS = ["a OR b c", "a(b)", ">1 AND a~2AND <5 3", "a AND b NOT c", "a OR b NOT c", "a AND b -c", "a OR b +c",
           "> 10", "price:>= 10", "(> 10)", "x AND > 10", "date:(<=2021 AND > 5)", "< 10", "(< \"a b\")",
-          "a OR b AND c", "f:(a b) c", "NOT a b", "a^2 b~ c", "-a^2", "T12:30 x", "f:T12 30"]
+          "a OR b AND c", "f:(a b) c", "NOT a b", "a^2 b~ c", "-a^2", "T12:30 x", "f:T12 30",
+          # merges in which the bound taken over has another inclusiveness than the open side it replaces
+          "price:(>10 AND <20)", "[1 TO *] AND [* TO 5}", ">=1 AND <5", "{1 TO *] AND <=5", "foo(bar)", "a[1 TO 2]"]
 
 
 def directed_query(rng):
